@@ -166,7 +166,8 @@ pub fn generate(ctx: &mut Ctx) {
         }
         // duplicate unknown attributes are fine; dedup identical binary-signing-time entries for DER SET OF
         attrs.sort(); attrs.dedup();
-        match rng.below(34) {
+        let mut second_crl = false;
+        match rng.below(36) {
             0 => when = nb - 1,
             1 => when = nb,
             2 => when = na,
@@ -201,6 +202,9 @@ pub fn generate(ctx: &mut Ctx) {
                 let d = pki::sha256(&content);
                 let v: Vec<u8> = match rng.below(4) { 0 => d[..31].to_vec(), 1 => vec![], 2 => { let mut x = d.clone(); x.push(0); x }, _ => d[..rng.below(32) as usize].to_vec() };
                 attrs[i] = pki::attr(pki::AT_MESSAGE_DIGEST, der::octets(&v)); attrs.sort(); }
+            // a second CRL in the set, after a clean one, that lists the EE certificate: whether an implementation reads
+            // one CRL or all of them, the message must not validate
+            28 | 29 => { second_crl = true; }
             _ => {}
         }
         let set = der::set_of(&attrs);
@@ -216,7 +220,13 @@ pub fn generate(ctx: &mut Ctx) {
         let rev: Vec<(Vec<u8>, i64)> = revoked.iter().map(|s| (s.clone(), nb)).collect();
         let crl_tbs = pki::encode_crl_tbs(&pki::hex_name(&pool.keys[crl_signer].ski), crl_this, crl_next, &rev,
             crl_aki.as_deref(), Some(&[1, 2, 3]));
-        let crl = pki::signed(&crl_tbs, &pool.sign(crl_signer, &crl_tbs));
+        let mut crl = pki::signed(&crl_tbs, &pool.sign(crl_signer, &crl_tbs));
+        if second_crl {
+            let rev2 = vec![(ee.serial.clone(), nb)];
+            let tbs2 = pki::encode_crl_tbs(&pki::hex_name(&pool.keys[peer].ski), nb, na, &rev2, crl_aki.as_deref(), Some(&[1, 2, 4]));
+            crl.extend_from_slice(&pki::signed(&tbs2, &pool.sign(peer, &tbs2)));
+            revoked.push(ee.serial.clone());
+        }
         let mut sig = pool.sign(sig_key, &sig_input);
         if flip_sig { let l = sig.len(); sig[l / 3] ^= 0x20; }
         let spec = pki::CmsSpec {
